@@ -70,12 +70,16 @@ class Effects:
         fv = R.fnview(self.ctx, body)
         # locals that hold `&mut <monitored place>` (direct) -> class set
         mutref = {}
+        owned = lambda l: l > body.argc and not body.ty(l).startswith(("&", "*"))
+        self._owned = owned
         for bi in range(fv.n):
             if body.cleanup[bi]:
                 continue
             for s in body.stmts(bi):
                 if s.kind == "a" and s.rv.op in ("ref", "ptr") and s.rv.a and s.place.is_local():
                     cs = self.cl.classify_proj(s.rv.place.proj)
+                    if cs and "*" not in s.rv.place.proj and owned(s.rv.place.local):
+                        cs = set()      # &mut into a value owned by this function (a staged copy / fresh object)
                     if not cs and s.rv.place.local in mutref and all(p == "*" for p in s.rv.place.proj):
                         cs = mutref[s.rv.place.local]      # reborrow
                     if cs:
@@ -103,6 +107,8 @@ class Effects:
                 continue
             for si, s in enumerate(body.stmts(bi)):
                 cs = self.cl.classify_proj(s.place.proj)
+                if cs and "*" not in s.place.proj and owned(s.place.local):
+                    cs = set()          # field of a local value, not of shared state
                 # write through a &mut local that points into monitored state
                 if not cs and s.place.proj and s.place.proj[0] == "*" and s.place.local in mutref:
                     cs = mutref[s.place.local]
@@ -166,6 +172,7 @@ class Effects:
         for (bi, k, cs, d, ln) in self.local_sites(body):
             if classes is None or cs & classes:
                 out.append((bi, cs if classes is None else cs & classes, d, ln))
+        fv = R.fnview(self.ctx, body)
         for bi, c in body.calls():
             cs = set()
             names = []
@@ -174,6 +181,8 @@ class Effects:
                 if s:
                     cs |= s
                     names.append(cal.name)
+            if cs and self.args_are_local(fv, body, c):
+                cs = set()
             if classes is not None:
                 cs &= classes
             if cs:
@@ -181,7 +190,46 @@ class Effects:
         return out
 
 
-def refusal_exits(ctx, fv, storage_pred=None):
+def _root_local(fv, body, local, depth=0):
+    """follow reference locals back to the local they point into; returns (local, through_deref_of_param)"""
+    if depth > 12:
+        return local
+    if not body.ty(local).startswith(("&", "*")) and "MutexGuard" not in body.ty(local):
+        return local
+    ds = fv.defs.get(local, [])
+    if len(ds) != 1:
+        return local
+    bi, idx, obj = ds[0]
+    if idx == "T":
+        if obj.args and obj.args[0].place is not None:
+            return _root_local(fv, body, obj.args[0].place.local, depth + 1)
+        return local
+    if obj.kind != "a":
+        return local
+    pl = obj.rv.place if obj.rv.op in ("ref", "ptr") else (obj.rv.ops[0].place if obj.rv.ops else None)
+    if pl is None:
+        return local
+    return _root_local(fv, body, pl.local, depth + 1)
+
+
+def _args_are_local(self, fv, body, call):
+    """every by-reference argument of the call is rooted in a value owned by this function"""
+    refs = [a for a in call.args if a.place is not None and body.ty(a.place.local).startswith(("&", "*"))]
+    if not refs:
+        # by-value receivers (Arc clones etc.) may alias shared state: be conservative
+        return False
+    for a in refs:
+        r = _root_local(fv, body, a.place.local)
+        if r <= body.argc or body.ty(r).startswith(("&", "*")) or "MutexGuard" in body.ty(r) or \
+           "Arc<" in body.ty(r) or "Weak<" in body.ty(r):
+            return False
+    return True
+
+
+Effects.args_are_local = _args_are_local
+
+
+def refusal_exits(ctx, fv, storage_pred=None, kinds=("err",)):
     """return sites that deliver an error and are not caused solely by a storage-layer failure"""
     out = []
     store_edges = set()
@@ -192,9 +240,72 @@ def refusal_exits(ctx, fv, storage_pred=None):
             if storage_pred(n1) or storage_pred(n2):
                 store_edges |= fv.result_edges(bi, c, "err")
     for r in fv.return_sites():
-        if r["kind"] not in ("err",):
+        if r["kind"] not in kinds:
             continue
         if store_edges and r["block"] not in fv.reach(0, cut_edges=store_edges):
             continue    # only reachable through a storage failure
         out.append(r)
     return out, store_edges
+
+
+def e5_pairs(ctx, eff, body, storage_pred, classes=None, extra_sites=(), _stack=None, kinds=("err",)):
+    """[(site, exit)] where a mutation of the classes can be followed by a refusal exit.
+    For a call site whose callee may both mutate and fail, exits reachable only through the call's own Err
+    edges count only if the callee is itself non-atomic."""
+    fv = R.fnview(ctx, body)
+    exits, _ = refusal_exits(ctx, fv, storage_pred, kinds)
+    out = []
+    for site in list(eff.sites(body, classes)) + list(extra_sites):
+        bi, cs, desc, ln = site
+        t = body.term(bi)
+        own_ok = own_err = None
+        if t.kind == "call" and (desc.startswith("call ") or desc.startswith("persist")):
+            own_ok = fv.result_edges(bi, t.call, "ok")
+            own_err = fv.result_edges(bi, t.call, "err")
+        for x in exits:
+            if x["block"] == bi and t.kind == "call" and x.get("call") is t.call:
+                # tail position `return callee(..)`: only the callee's own failure
+                if not _callees_atomic(ctx, eff, body, t.call, storage_pred, classes, _stack):
+                    out.append((site, x))
+                continue
+            if not fv.reaches(bi, x["block"]):
+                continue
+            if own_err:
+                # reachable when the call succeeded?
+                after_ok = set()
+                for (u, v) in own_ok:
+                    after_ok |= fv.reach(v)
+                if own_ok and x["block"] in after_ok:
+                    out.append((site, x))
+                elif not _callees_atomic(ctx, eff, body, t.call, storage_pred, classes, _stack):
+                    out.append((site, x))
+            else:
+                out.append((site, x))
+    return out
+
+
+def _callees_atomic(ctx, eff, body, call, storage_pred, classes, _stack):
+    _stack = _stack or set()
+    # what counts as the callee "failing": Err for Result, false for bool, None for Option
+    dty = body.ty(call.dest.local) if call.dest.is_local() else ""
+    kinds = ("false",) if dty == "bool" else (("none",) if dty.startswith(("std::option::Option<", "core::option::Option<")) else ("err",))
+    for cal in eff.callees(call, body):
+        if not eff.summary(cal):
+            continue
+        if not is_atomic(ctx, eff, cal, storage_pred, classes, _stack | {body.d.id}, kinds):
+            return False
+    return True
+
+
+def is_atomic(ctx, eff, body, storage_pred, classes=None, _stack=None, kinds=("err",)):
+    """E5 holds inside `body` (transitively)"""
+    cache = ctx.__dict__.setdefault("_atomic", {})
+    key = (body.d.id, tuple(sorted(classes)) if classes else None, kinds)
+    if key in cache:
+        return cache[key]
+    _stack = _stack or set()
+    if body.d.id in _stack:
+        return True
+    r = not e5_pairs(ctx, eff, body, storage_pred, classes, _stack=_stack | {body.d.id}, kinds=kinds)
+    cache[key] = r
+    return r
